@@ -243,12 +243,13 @@ func c17IsField(v ssa.Value, named *types.Named, field string) bool {
 	return ok && nt.Obj() == named.Obj()
 }
 
-// c17BoolResults: the values stored to the (spilled) bool result on the walk.
+// c17BoolResults: the values stored to the (spilled) bool result on the walk — each value as it is on
+// the walk (a φ such as the one of `!known || x` merges only the edges the walk takes).
 func c17BoolResults(r *Run, fn *ssa.Function, reach *Reach) []string {
 	set := map[string]bool{}
 	eachInstr(fn, func(in ssa.Instruction) {
 		if st, ok := in.(*ssa.Store); ok && reach.Has(st) && glob("new:bool#*", r.D.D(st.Addr)) {
-			set[r.D.D(st.Val)] = true
+			set[r.D.DUnder(st.Val, reach)] = true
 		}
 	})
 	for _, ret := range reachableReturns(fn, reach) {
@@ -519,7 +520,7 @@ func c17Contacted(r *Run) {
 		r.Check("addSomeChain:kind-compared", found, r.FnPos(fn), "the leaf kind is compared with the endpoint used (asPreChain)")
 		r.MustGuard(fn, "addSomeChain:precert-test-error", "nil?trillian/ctfe.IsPrecertificate(*)#1", "non", submit, "submission to logs")
 		r.MustGuard(fn, "addSomeChain:policy-error", "nil?iface(ctpolicy.CTPolicy).LogsByGroup(*)#1", "non", submit, "submission to logs")
-		r.MustGuard(fn, "addSomeChain:selection-error", "nil?(*submission.Distributor).addSomeChain$1()#2", "non", submit, "submission to logs")
+		r.MustGuard(fn, "addSomeChain:selection-error", "nil?(*submission.Distributor).addSomeChain$1(*)#2", "non", submit, "submission to logs")
 		if len(submit) == 1 {
 			c := submit[0].(ssa.CallInstruction)
 			r.ExpectArg(c, "addSomeChain:submit.groups", 4, "iface(ctpolicy.CTPolicy).LogsByGroup(p0.policy, *)#0")
